@@ -133,8 +133,15 @@ def run_config(cfg, res):
   def check_string(x, label):
     """Any carbon-syntax string, judged against the reference reading (history independent by construction)."""
     if reft.is_openmetrics_shaped(x):
-      return
-    ref = reft.ref_parse_carbon(x)
+      ref = reft.ref_parse_openmetrics(x)
+      res.count('openmetrics_reference_evaluations')
+      if ref == 'unspec':
+        res.count('openmetrics_reading_unspecified')
+        return
+      if ref is None:
+        res.count('openmetrics_rule_violating_paths')
+    else:
+      ref = reft.ref_parse_carbon(x)
     n1, ok = N(x)
     res.count('reference_parser_evaluations')
     if ref is None:
@@ -210,6 +217,21 @@ def run_config(cfg, res):
       for x in rotations(nm, pairs):
         check_string(x, 'rotation')
       check_string(reft.carbon_spelling(nm, pairs), 'plain')
+      # OpenMetrics label lists in which any label may be structurally broken, in any position
+      if i % 2 == 0:
+        labels = []
+        for _ in range(r.randint(1, 4)):
+          k, v = word(2), word(2)
+          c = r.random()
+          if c < 0.55:
+            labels.append('%s="%s"' % (k, reft.om_escape(v)))
+          else:
+            labels.append(r.choice(['%s=""' % k, '="%s"' % v, '%s=%s' % (k, v), '%s="%s"x' % (k, v), '%s="%s' % (k, v), k,
+                                    '%s="%s' % (k, v) + '\\"', '', '%s="%s" ' % (k, v), '%s=\'%s\'' % (k, v), '%s="%s"' % (k, v)]))
+        x = r.choice(easy[:8]) + '{' + ','.join(labels) + '}'
+        if not reft.is_openmetrics_shaped(x):
+          x = x[:-1] + ',z="z"}'
+        check_string(x, 'openmetrics')
 
 
 def classify(v):
